@@ -64,22 +64,32 @@ type raSys struct {
 
 const raKey = "apps"
 
-func (s *raSys) call(md string) {
+func (s *raSys) call(md string) { s.callApp("app1", md) }
+
+// callApp: a call made in the name of appName (app2 is a second application whose stored
+// token "u2" never changes: what one application presented or was told must not matter to
+// the other)
+func (s *raSys) callApp(appName, md string) {
+	if appName == "app2" {
+		saved := s.stored
+		s.stored = "u2"
+		defer func() { s.stored = saved }()
+	}
 	ctx := context.Background()
 	app, tok := "", ""
 	switch md {
 	case "none":
 	case "apponly":
-		ctx = metadata.NewIncomingContext(ctx, metadata.Pairs("app", "app1"))
-		app = "app1"
+		ctx = metadata.NewIncomingContext(ctx, metadata.Pairs("app", appName))
+		app = appName
 	case "tokenonly":
 		ctx = metadata.NewIncomingContext(ctx, metadata.Pairs("token", "t1"))
 		tok = "t1"
 	case "empty":
 		ctx = metadata.NewIncomingContext(ctx, metadata.Pairs("app", "", "token", ""))
 	default: // a token: t1, t2, a proper prefix of t1 ("t"), an extension of it ("t1x")
-		ctx = metadata.NewIncomingContext(ctx, metadata.Pairs("app", "app1", "token", md))
-		app, tok = "app1", md
+		ctx = metadata.NewIncomingContext(ctx, metadata.Pairs("app", appName, "token", md))
+		app, tok = appName, md
 	}
 	err := s.a.Authenticate(ctx)
 	code := status.Code(err)
@@ -100,19 +110,19 @@ func (s *raSys) call(md string) {
 			}
 			return
 		}
-		s.r.Failf("call app1/%s near the cache expiry: got %v", tok, err)
+		s.r.Failf("call %s/%s near the cache expiry: got %v", app, tok, err)
 		return
 	}
 	if have && vrt.Elapsed()-s.at[app] < 5*time.Minute {
 		if want := s.expectCode(tok, known); code != want {
-			s.r.Failf("call app1/%s with token %q fetched %v ago: got %v, want %v", tok, known, vrt.Elapsed()-s.at[app], err, want)
+			s.r.Failf("call %s/%s with token %q fetched %v ago: got %v, want %v", app, tok, known, vrt.Elapsed()-s.at[app], err, want)
 		}
 		return
 	}
 	delete(s.cached, app)
 	ok := s.stored != "" && !s.down
 	if want := s.expect(tok, s.stored, ok); code != want {
-		s.r.Failf("call app1/%s (stored %q, store down=%v, strict=%v): got %v, want %v", tok, s.stored, s.down, s.strict, err, want)
+		s.r.Failf("call %s/%s (stored %q, store down=%v, strict=%v): got %v, want %v", app, tok, s.stored, s.down, s.strict, err, want)
 	}
 	if ok {
 		s.cached[app], s.at[app] = s.stored, vrt.Elapsed()
@@ -141,6 +151,8 @@ func (s *raSys) apply(op string) bool {
 	switch {
 	case strings.HasPrefix(op, "call:"):
 		s.call(op[5:])
+	case strings.HasPrefix(op, "call2:"):
+		s.callApp("app2", op[6:])
 	case strings.HasPrefix(op, "store:"):
 		v := op[6:]
 		if s.down {
@@ -178,26 +190,34 @@ func (s *raSys) apply(op string) bool {
 }
 
 func (s *raSys) canon() string {
-	c := "-"
-	if v, ok := s.cached["app1"]; ok {
-		age := vrt.Elapsed() - s.at["app1"]
-		if age > 6*time.Minute {
-			age = 6 * time.Minute
+	out := fmt.Sprintf("stored=%s|down=%v", s.stored, s.down)
+	for _, app := range []string{"app1", "app2"} {
+		c := "-"
+		if v, ok := s.cached[app]; ok {
+			age := vrt.Elapsed() - s.at[app]
+			if age > 6*time.Minute {
+				age = 6 * time.Minute
+			}
+			c = fmt.Sprintf("%s@%v", v, age)
 		}
-		c = fmt.Sprintf("%s@%v", v, age)
+		real := "-"
+		if v, ok := s.a.cache.Get(app); ok {
+			real = fmt.Sprint(v)
+		}
+		out += fmt.Sprintf("|%s:cached=%s,real=%s", app, c, real)
 	}
-	real := "-"
-	if v, ok := s.a.cache.Get("app1"); ok {
-		real = fmt.Sprint(v)
+	// anything else the authenticator remembers
+	if v, ok := s.a.cache.Get(raKey); ok {
+		out += fmt.Sprintf("|other=%v", v)
 	}
-	return fmt.Sprintf("stored=%s|cached=%s|down=%v|real=%s", s.stored, c, s.down, real)
+	return out
 }
 
 func TestVerifRpcAuth(t *testing.T) {
 	defer vrt.WriteReport()
 	logx.Disable()
 	stat.SetReporter(nil)
-	ops := []string{"call:none", "call:apponly", "call:tokenonly", "call:empty", "call:t1", "call:t2", "call:t", "call:t1x", "store:t1", "store:t2", "store:none", "down", "up", "t0", "t60", "t360"}
+	ops := []string{"call:none", "call:apponly", "call:tokenonly", "call:empty", "call:t1", "call:t2", "call:t", "call:t1x", "call2:u2", "call2:t1", "store:t1", "store:t2", "store:none", "down", "up", "t0", "t60", "t360"}
 	depth := 4
 	if vrt.Thorough() {
 		depth = 8
@@ -216,6 +236,7 @@ func TestVerifRpcAuth(t *testing.T) {
 				return vrt.Step{Canon: "failed"}
 			}
 			s.a = a
+			s.s.HSet(raKey, "app2", "u2")
 			vrt.Settle()
 			for _, op := range hist {
 				if op == "t0" {
